@@ -113,6 +113,19 @@ def ladder_strings():
         out.append(('sig', b'(' * k + b'a{s' * 3 + b'i' + b'}' * 3 + b')' * k))
         out.append(('sig', b'a(' * (k - 1) + b'ai' + b')' * (k - 1)))
         out.append(('sig', b'a{s' * (k - 1) + b'ai' + b'}' * (k - 1)))
+    # one odd byte / one multi-byte sequence at every position of long plain runs (a validator that takes several bytes
+    # at a time must still look at each one): UTF-8 text of 8..33 bytes, names of 26 bytes
+    specials = [b'\x00', b'\x80', b'\xc0', b'\xff', b'\xc3\xa9', b'\xe2\x82\xac', b'\xf0\x9f\x98\x80', b'\xe2\x82', b'\xed\xa0\x80', b'\xf4\x90\x80\x80']
+    for L in (8, 9, 15, 16, 17, 24, 33):
+        for pos in range(L):
+            for sp in specials:
+                out.append(('utf8', b'a' * pos + sp + b'a' * (L - pos - 1)))
+    base = {'iface': b'abcdefgh.ijklmnop.qrstuvwx', 'error': b'abcdefgh.ijklmnop.qrstuvwx', 'bus': b'abcdefgh.ijklmnop.qrstuvwx', 'member': b'abcdefghijklmnopqrstuvwxyz',
+            'path': b'/bcdefgh/ijklmnop/qrstuvwx'}
+    for kind, b0 in base.items():
+        for pos in range(len(b0)):
+            for ch in (b'-', b'/', b'\x00', b'\x80', b'.', b'1', b' '):
+                out.append((kind, b0[:pos] + ch + b0[pos + 1:]))
     # every kind of container open to (around) its own limit AT THE SAME TIME: 32 arrays + 32 dict entries + 32 structs
     for k in (31, 32, 33):
         for j in (31, 32, 33):
